@@ -325,10 +325,24 @@ def end_to_end(rep, tier):
         "dollar-in-action": "@ true { $1; let t = $2; cnt = cnt + 1; }",
         "several-filters": "@ true { let a = 1; }\n@ true { let b = 2; let c = 3; }\n@ true { cnt = cnt + 1; }",
     }
+    # a pattern that is not a boolean: when it is falsey the packet is reported ("filter expression must evaluate to a
+    # boolean") and the run goes on with the next packet - that path has to release the action's locals as well
+    many = " ".join("let v%d = NP + %d;" % (i, i) for i in range(12))
+    nonbool = {
+        "nonbool-pattern-int": ("@ NP %% 3 { %s cnt = cnt + 1; }" % many, npk - npk // 3),
+        # (whether a packet reported this way is still offered to the filters after it is not this property's business)
+        "nonbool-pattern-null": ("@ $9 { %s }\n@ true { cnt = cnt + 1; }" % many, None),
+        "nonbool-pattern-empty-string": ('@ "" { %s }\n@ true { cnt = cnt + 1; }' % many, None),
+        "nonbool-pattern-in-function": ("fn pat(n) { n %% 2 }\n@ pat(NP) { %s cnt = cnt + 1; }" % many, npk - npk // 2),
+    }
+    wants = {tag: npk for tag in filters}
+    for tag, (src, cnt) in nonbool.items():
+        filters[tag] = src
+        wants[tag] = cnt
     fjobs = [(["-s", "-c", "let cnt = 0;\n%s\n@ end { eprintln(\"END {} {}\", NP, cnt); }\n" % src], cap) for src in filters.values()]
     for tag, r in zip(filters, e2e.run_many(fjobs)):
         rep.cov["evaluations"] += 1
-        want = ("END %d %d" % (npk, npk)).encode()
+        want = ("END %d %d" % (npk, wants[tag])).encode() if wants[tag] is not None else ("END %d " % npk).encode()
         if r["how"] != "exit" or b"overflow" in r["err"].lower() or want not in r["err"]:
             rep.disagree("e2e filter-mode stack growth %s" % tag, {"stderr": r["err"].decode("utf8", "replace")[-300:], "how": r["how"],
                                                                   "packets": npk})
